@@ -501,103 +501,130 @@ def engine_b(tier):
                     return cat
             return None
 
-        # ---- lemma L -----------------------------------------------------------------
-        try:
-            w = K.World(width=0, depth=0)
-            o1, o2 = w.new_node("o1"), w.new_node("o2")
-            ex = K.Explorer(world=w, stats=stats)
-            ex.base = [o1.T == o2.T] + [o1.T != w.const_of(c) for c in block]
-            seen = set()
+        def prove(notion):
+            """L + step under one reading of 'blocklisted': the exact types listed, or the
+            listed types and their subclasses.  The memo is invisible if the obligations
+            discharge under some reading the code itself implements (the step obligation
+            'only non-blocklisted types are stored' ties the reading to the code)."""
+            res = {"obligations": 0, "discharged": 0, "violations": [], "inconclusive": [], "samples": [], "functions": set()}
 
-            def thunkL(ctx):
-                it = K.Interp(ctx, world=w)
-                try:
-                    return (classify(it, o1), classify(it, o2))
-                finally:
-                    seen.update(it.functions_seen)
+            def blocked(w, T):
+                if not block:
+                    return z3.BoolVal(False)
+                if notion == "exact":
+                    return z3.Or(*[T == w.const_of(c) for c in block])
+                return z3.Or(*[w.subp(c)(T) for c in block])
 
-            paths = ex.run(thunkL)
-            out["functions"].update(seen)
-            bad = [p for p in paths if p.kind == "return" and p.value[0] != p.value[1]]
-            other = [p for p in paths if p.kind != "return"]
-            out["obligations"] += 1
-            if other:
-                out["inconclusive"].append(f"{label} lemma L: identifier raised / bound hit on {len(other)} paths ({other[0]!r})")
-            elif not bad:
-                out["discharged"] += 1
-            else:
-                for p in bad[:3]:
-                    r, s = ex.check(p.conds)
-                    if r == "sat":
-                        out["violations"].append({"resolver": label, "obligation": "L", "what": f"two objects of one non-blocklisted type classify as {p.value[0]!r} and {p.value[1]!r}", "profile": profile(w, s.model(), o1), "path": [str(c) for c in p.conds][:12]})
-                        break
-            out["samples"].append({"resolver": label, "obligation": "L: same type => same category", "paths": len(paths), "result": "unsat" if not bad and not other else "sat"})
-        except K.Unsupported as e:
-            out["obligations"] += 1
-            out["inconclusive"].append(f"{label} lemma L: outside the translated subset: {e}")
-        # ---- step: get_type from an arbitrary invariant-respecting memo -----------------------
-        try:
-            w = K.World(width=0, depth=0)
-            o, prev = w.new_node("o"), w.new_node("prev")
-            smap = K.SMap(w, "memo", cats)
-            ex = K.Explorer(world=w, stats=stats)
-            ex.base = [o.T == prev.T]
-            not_blocked = z3.And(*[o.T != w.const_of(c) for c in block]) if block else z3.BoolVal(True)
-            seen = set()
-            get_type = type(R).get_type
+            # ---- lemma L -----------------------------------------------------------------
+            try:
+                w = K.World(width=0, depth=0)
+                o1, o2 = w.new_node("o1"), w.new_node("o2")
+                ex = K.Explorer(world=w, stats=stats)
+                ex.base = [o1.T == o2.T, z3.Not(blocked(w, o1.T))]
+                seen = set()
 
-            def thunkS(ctx):
-                it = K.Interp(ctx, world=w, resolver_maps={id(R): smap})
-                smap.reset()
-                try:
-                    c_prev = classify(it, prev)
-                    c = classify(it, o)
-                    # invariant instance for this type: an entry was written for an object
-                    # of this type (prev), whose type passed the blocklist test
-                    ctx.conds.append(z3.Implies(smap.present(o.T), z3.And(smap.val(o.T) == cats.index(c_prev), not_blocked)))
-                    r = it.call_python(get_type, [K.ResolverProxy(R, smap), o])
-                    return (c_prev, c, r, list(smap.stores))
-                finally:
-                    seen.update(it.functions_seen)
+                def thunkL(ctx):
+                    it = K.Interp(ctx, world=w)
+                    try:
+                        return (classify(it, o1), classify(it, o2))
+                    finally:
+                        seen.update(it.functions_seen)
 
-            paths = ex.run(thunkS)
-            out["functions"].update(seen)
-            out["obligations"] += 2
-            bad_result, bad_store, other = [], [], []
-            for p in paths:
-                if p.kind != "return":
-                    other.append(p)
-                    continue
-                r0, s0 = ex.check(p.conds)
-                if r0 == "unsat":
-                    continue
-                c_prev, c, r, stores = p.value
-                if r != c:
-                    bad_result.append((p, s0))
-                for key, val in stores:
-                    if not isinstance(key, K.SType) or key.node is not o or val != c:
-                        bad_store.append((p, s0, f"stores {val!r} under {key!r}, fresh classification {c!r}"))
+                paths = ex.run(thunkL)
+                res["functions"].update(seen)
+                bad = [p for p in paths if p.kind == "return" and p.value[0] != p.value[1]]
+                other = [p for p in paths if p.kind != "return"]
+                res["obligations"] += 1
+                if other:
+                    res["inconclusive"].append(f"{label} lemma L: identifier raised / bound hit on {len(other)} paths ({other[0]!r})")
+                elif not bad:
+                    res["discharged"] += 1
+                else:
+                    for p in bad[:3]:
+                        r, s = ex.check(p.conds)
+                        if r == "sat":
+                            res["violations"].append({"resolver": label, "obligation": "L", "what": f"two objects of one non-blocklisted type classify as {p.value[0]!r} and {p.value[1]!r}", "profile": profile(w, s.model(), o1), "path": [str(c) for c in p.conds][:12]})
+                            break
+                res["samples"].append({"resolver": label, "obligation": "L: same type => same category", "paths": len(paths), "result": "unsat" if not bad and not other else "sat"})
+            except K.Unsupported as e:
+                res["obligations"] += 1
+                res["inconclusive"].append(f"{label} lemma L: outside the translated subset: {e}")
+            # ---- step: get_type from an arbitrary invariant-respecting memo -----------------------
+            try:
+                w = K.World(width=0, depth=0)
+                o, prev = w.new_node("o"), w.new_node("prev")
+                smap = K.SMap(w, "memo", cats)
+                ex = K.Explorer(world=w, stats=stats)
+                ex.base = [o.T == prev.T]
+                not_blocked = z3.Not(blocked(w, o.T))
+                seen = set()
+                get_type = type(R).get_type
+
+                def thunkS(ctx):
+                    it = K.Interp(ctx, world=w, resolver_maps={id(R): smap})
+                    smap.reset()
+                    try:
+                        c_prev = classify(it, prev)
+                        c = classify(it, o)
+                        # invariant instance for this type: an entry was written for an object
+                        # of this type (prev), whose type passed the blocklist test
+                        ctx.conds.append(z3.Implies(smap.present(o.T), z3.And(smap.val(o.T) == cats.index(c_prev), not_blocked)))
+                        r = it.call_python(get_type, [K.ResolverProxy(R, smap), o])
+                        return (c_prev, c, r, list(smap.stores))
+                    finally:
+                        seen.update(it.functions_seen)
+
+                paths = ex.run(thunkS)
+                res["functions"].update(seen)
+                res["obligations"] += 2
+                bad_result, bad_store, other = [], [], []
+                for p in paths:
+                    if p.kind != "return":
+                        other.append(p)
+                        continue
+                    r0, s0 = ex.check(p.conds)
+                    if r0 == "unsat":
+                        continue
+                    c_prev, c, r, stores = p.value
+                    if r != c:
+                        bad_result.append((p, s0))
+                    for key, val in stores:
+                        if not isinstance(key, K.SType) or key.node is not o or val != c:
+                            bad_store.append((p, s0, f"stores {val!r} under {key!r}, fresh classification {c!r}"))
+                        else:
+                            rb, sb = ex.check(p.conds + [z3.Not(not_blocked)])
+                            if rb != "unsat":
+                                bad_store.append((p, sb, "a blocklisted type is memoised"))
+                if other:
+                    res["inconclusive"].append(f"{label} step: get_type raised / bound hit on {len(other)} paths ({other[0]!r})")
+                else:
+                    if not bad_result:
+                        res["discharged"] += 1
                     else:
-                        rb, sb = ex.check(p.conds + [z3.Not(not_blocked)])
-                        if rb != "unsat":
-                            bad_store.append((p, sb, "a blocklisted type is memoised"))
-            if other:
-                out["inconclusive"].append(f"{label} step: get_type raised / bound hit on {len(other)} paths ({other[0]!r})")
-            else:
-                if not bad_result:
-                    out["discharged"] += 1
-                else:
-                    p, s = bad_result[0]
-                    out["violations"].append({"resolver": label, "obligation": "step-result", "what": f"get_type returns {p.value[2]!r} where the fresh classification is {p.value[1]!r} (memo entry written for an object classified {p.value[0]!r})", "profile": profile(w, s.model(), o) if s is not None and str(r0) != "unknown" else {}, "path": [str(c) for c in p.conds][:12]})
-                if not bad_store:
-                    out["discharged"] += 1
-                else:
-                    p, s, what = bad_store[0]
-                    out["violations"].append({"resolver": label, "obligation": "step-store", "what": what, "profile": {}, "path": [str(c) for c in p.conds][:12]})
-            out["samples"].append({"resolver": label, "obligation": "step: get_type(o) == fresh classification from any invariant-respecting memo", "paths": len(paths), "result": "unsat" if not (bad_result or bad_store or other) else "sat"})
-        except K.Unsupported as e:
-            out["obligations"] += 2
-            out["inconclusive"].append(f"{label} step: outside the translated subset: {e}")
+                        p, s = bad_result[0]
+                        res["violations"].append({"resolver": label, "obligation": "step-result", "what": f"get_type returns {p.value[2]!r} where the fresh classification is {p.value[1]!r} (memo entry written for an object classified {p.value[0]!r})", "profile": profile(w, s.model(), o) if s is not None and str(r0) != "unknown" else {}, "path": [str(c) for c in p.conds][:12]})
+                    if not bad_store:
+                        res["discharged"] += 1
+                    else:
+                        p, s, what = bad_store[0]
+                        res["violations"].append({"resolver": label, "obligation": "step-store", "what": what, "profile": {}, "path": [str(c) for c in p.conds][:12]})
+                res["samples"].append({"resolver": label, "obligation": "step: get_type(o) == fresh classification from any invariant-respecting memo", "paths": len(paths), "result": "unsat" if not (bad_result or bad_store or other) else "sat"})
+            except K.Unsupported as e:
+                res["obligations"] += 2
+                res["inconclusive"].append(f"{label} step: outside the translated subset: {e}")
+            for smp in res["samples"]:
+                smp["blocklist_reading"] = notion
+            for v in res["violations"]:
+                v["blocklist_reading"] = notion
+            return res
+
+        attempts = [prove("exact")] + ([prove("subclass")] if block else [])
+        best = min(attempts, key=lambda r: (r["obligations"] - r["discharged"], len(r["inconclusive"])))
+        for k in ("obligations", "discharged"):
+            out[k] += best[k]
+        for k in ("violations", "inconclusive", "samples"):
+            out[k].extend(best[k])
+        out["functions"].update(best["functions"])
         # ---- translator validation: pool objects through the real callables and the encoding -------
         try:
             for pname, fac in POOL:
@@ -630,6 +657,36 @@ def engine_b(tier):
     return out
 
 
+def engine_b_numpy(tier):
+    """Engine B once more in a numpy-enabled interpreter (overlay /verif/.venv-np, built by
+    setup.sh from the offline wheelhouse): there NUMPY is True, the identifier callables look
+    at numpy.ndarray / ndim and the blocklist is non-empty.  Returns a summary dict or None."""
+    import json as _json
+    import os
+    import subprocess
+
+    root = os.path.dirname(os.path.dirname(os.path.abspath(__file__)))
+    py = os.path.join(root, ".venv-np", "bin", "python")
+    if not os.path.exists(py):
+        return None
+    code = ("import json; from vf import hlib; hlib.get_env('model'); import harness.C19 as c; b = c.engine_b(%r); "
+            "import synced_collections.numpy_utils as nu; "
+            "vs = [dict(v, replay=list(c.replay_b(v))) for v in b['violations']]; "
+            "print('NPB ' + json.dumps({'numpy': nu.NUMPY, 'obligations': b['obligations'], 'discharged': b['discharged'], 'violations': vs, 'inconclusive': b['inconclusive'], "
+            "'disagreements': b['disagreements'], 'validated': b['validated'], 'queries': b['stats'].queries, 'solver_s': b['stats'].solver_s, 'paths': b['stats'].paths, 'samples': b['samples'][:6]}, default=repr))") % tier
+    env = dict(os.environ)
+    env.pop("VF_MODE", None)
+    env["PYTHONPATH"] = f"{os.environ.get('VF_REPO', '/repo')}:{root}"
+    try:
+        p = subprocess.run([py, "-c", code], capture_output=True, text=True, timeout=900, env=env, cwd=root)
+    except Exception as e:
+        return {"error": repr(e)}
+    for line in p.stdout.splitlines():
+        if line.startswith("NPB "):
+            return _json.loads(line[4:])
+    return {"error": (p.stdout + p.stderr)[-1500:]}
+
+
 def profile(w, model, node):
     prof = {}
     for c, f in w.sub.items():
@@ -655,13 +712,18 @@ def replay_b(v):
     extra = [("float2", lambda: 2.5), ("float-ninf", lambda: float("-inf")), ("int0", lambda: 0), ("int-neg", lambda: -1), ("str-dot", lambda: "a.b"), ("list2", lambda: [[1]]), ("dict2", lambda: {"a": {"b": 1}}),
              ("tuple-empty", lambda: ()), ("bool-f", lambda: False), ("MyDict2", lambda: MyDict()), ("MyList2", lambda: MyList()), ("UserSequence2", lambda: UserSequence([])), ("UserMapping2", lambda: UserMapping({})),
              ("MyFloat-nan", lambda: MyFloat("nan")), ("MyInt0", lambda: MyInt(0)), ("MyStr-empty", lambda: MyStr(""))]
+    try:
+        import numpy as np
+
+        extra += [("ndarray-0d", lambda: np.array(1.0)), ("ndarray-1d", lambda: np.array([1.0, 2.0])), ("masked-0d", lambda: np.ma.masked_array(1.0)), ("masked-1d", lambda: np.ma.masked_array([1.0, 2.0])),
+                  ("recarray-0d", lambda: np.array(1.0).view(np.recarray)), ("recarray-1d", lambda: np.array([1.0, 2.0]).view(np.recarray)), ("np-float64", lambda: np.float64(1.5)), ("np-int64", lambda: np.int64(3)), ("np-bool", lambda: np.bool_(True))]
+    except ImportError:
+        pass
     for n, f in POOL + extra:
         o = f()
         by_type.setdefault(type(o), []).append((n, o))
     block = tuple(R.cache_blocklist or ())
     for t, objs in by_type.items():
-        if t in block:
-            continue
         for na, a in objs:
             for nb, b in objs:
                 if na == nb:
@@ -722,6 +784,34 @@ def main(tier, seed):
                 res["violations"].append(rec)
         else:
             res["mismatch"].append({"what": "Engine B counterexample could not be realised with pool values", **rec})
+    nb = engine_b_numpy(tier)
+    np_cov = {"status": "numpy overlay not available: the NUMPY=True world was not examined"}
+    if nb is None:
+        res["inconclusive"].append("engine B (numpy world): overlay .venv-np missing")
+    elif "error" in nb:
+        res["inconclusive"].append("engine B (numpy world): " + str(nb["error"])[-400:])
+        np_cov = {"status": "failed to run", "error": str(nb["error"])[-400:]}
+    else:
+        np_cov = {k: nb[k] for k in ("numpy", "obligations", "discharged", "validated", "queries", "paths", "samples")}
+        np_cov["solver_seconds"] = round(nb["solver_s"], 2)
+        res["queries"] += nb["queries"]
+        res["solver_s"] += nb["solver_s"]
+        res["traces_validated"] += nb["validated"] + len(nb["violations"])
+        if not nb["numpy"]:
+            res["inconclusive"].append("engine B (numpy world): numpy did not import in the overlay")
+        for i in nb["inconclusive"]:
+            res["inconclusive"].append("engine B (numpy world): " + i)
+        for d in nb["disagreements"]:
+            res["harness_errors"].append("translator validation (numpy world): " + d)
+        for v in nb["violations"]:
+            bad, detail = v.pop("replay")
+            rec = {"property": PID, "harness": "harness.C19.engine_b (numpy-enabled interpreter)", "engine": "B", "counterexample": v, "replay": {"outcome": "fail" if bad else "pass", "detail": detail}}
+            if bad:
+                if ("np", v["resolver"]) not in seen:
+                    seen.add(("np", v["resolver"]))
+                    res["violations"].append(rec)
+            else:
+                res["mismatch"].append({"what": "Engine B counterexample (numpy world) could not be realised with pool values", **rec})
     res["traces_validated"] += b["validated"]
     for d in b["disagreements"]:
         res["harness_errors"].append("translator validation: " + d)
@@ -735,5 +825,6 @@ def main(tier, seed):
     res["wall_s"] = round(time.time() - t0, 2)
     extra = {"engine_B": {"resolvers": b["resolvers"], "obligations": b["obligations"], "discharged": b["discharged"], "kernel_paths": st.paths, "solver_queries": st.queries,
                           "solver_seconds": round(st.solver_s, 2), "solver_unknown": st.unknown, "translator_validation_runs": b["validated"],
-                          "functions_translated": sorted(b["functions"]), "samples": b["samples"], "violations": b["violations"][:10]}}
+                          "functions_translated": sorted(b["functions"]), "samples": b["samples"], "violations": b["violations"][:10]},
+             "engine_B_numpy_world": np_cov}
     return vrun.finish(res, me, extra_cov=extra)
